@@ -209,6 +209,7 @@ Rel_BudgetPrefix(Ra, Cb, Rb) ==
     /\ (Len(Rb.yd) < Len(Ra.yd) => Rb.status = "NeedLargerNMax")
     /\ (Rb.status = "NeedLargerNMax" => Len(Rb.oded) <= Len(Ra.oded))
     /\ (Rb.status # "NeedLargerNMax" => Rb.status = Ra.status /\ Rb.yd = Ra.yd)
+    /\ (Rb.yd = Ra.yd /\ Ra.status = "Success" => Rb.status = "Success")     \* a budget that was enough did not run out
 Rel_TerminalPrefix(Ra, Cb, Rb) ==
     IF Rb.status = "UserInterrupt"
     THEN /\ IsPrefixOf(Front(Rb.yd), Ra.yd)
